@@ -7,7 +7,7 @@ from pathlib import Path
 sys.path.insert(0, str(Path(__file__).resolve().parent.parent))
 from pgstat import selfval
 
-d = Path(sys.argv[1])
+d = Path(sys.argv[1]).resolve()
 props = [json.loads(l)["id"] for l in (selfval.VERIF / "properties.jsonl").read_text().splitlines() if l.strip()]
 vs = []
 for pf in sorted(d.glob("*.diff")):
